@@ -11,7 +11,13 @@ def run(R, mod, path):
     tm = rp["trace_module"]
     R.work = os.path.join(vlib.WORK, R.pid + ".replay")
     os.makedirs(R.work, exist_ok=True)
-    if tm == "TraceEquiv":
+    if h.get("cls") == "pctrace":
+        import props.c19 as c19
+        c19.replay(R, rp)
+    elif tm == "(cargo build)":
+        import props.c17 as c17
+        c17.compiles(R)
+    elif tm == "TraceEquiv":
         tags = rp.get("builds") or [rp["build"]]
         by = {t: R.drive_on([h], t, "replay." + t) for t in tags}
         R.equiv(by, "replay.equiv", describe=lambda r, v: rp.get("desc", {}))
